@@ -704,6 +704,45 @@ func (e *env) registryOps(st Step) (res Result) {
 				codec.Registry(b)
 			}
 		}
+		if r%8 == 3 {
+			// phase E - an owner registers, looks up, removes and looks up again its own name while readers spin
+			// on look-ups of that name: a Get after the owner's own Remove returned must not find the name, a Get
+			// after its successful Registry must return that very service (lock-free look-up memos published
+			// late serve stale entries here; no data race is involved)
+			nm := name + "_own"
+			stop := make(chan struct{})
+			var rg sync.WaitGroup
+			for t := 0; t < 2; t++ {
+				rg.Add(1)
+				go func() {
+					defer rg.Done()
+					for {
+						select {
+						case <-stop:
+							return
+						default:
+							codec.Get(nm)
+						}
+					}
+				}()
+			}
+			for i := 0; i < 100; i++ {
+				sv := &namedSvc{nm}
+				if !codec.Registry(sv) {
+					anomalies++
+				}
+				if v, ok := codec.Get(nm); !ok || v != any(sv) {
+					anomalies++
+				}
+				codec.Remove(nm)
+				if _, ok := codec.Get(nm); ok {
+					anomalies++
+				}
+			}
+			close(stop)
+			rg.Wait()
+			codec.Remove(nm)
+		}
 		if r%8 == 6 {
 			// phase D - a Remove that drains the registry overlaps registrations of other names: a registration
 			// that reported success must still be there afterwards (nobody removed it)
